@@ -74,7 +74,8 @@ CHECKS = [
              'pending/written, every instance attribute) are enumerated by BFS on the real object; from each state '
              'every write size 0..3040 (thorough) or 0..1016 plus boundary-relative sizes (quick) is executed from '
              'two different representative histories and the finalised file is compared byte-for-byte with the '
-             'reference blocking of the bytes written. Because every (state, size) pair is executed, every write '
+             'reference blocking of the bytes written (four content codings; large single writes 8191..20001, thorough '
+             '39000, from every state; one-shot block_1014 for every length). Because every (state, size) pair is executed, every write '
              'history with writes up to that size is covered, not just a depth.',
      'note': 'Trusts blk_ref (15 lines). State abstraction is checked by expanding every state from two histories; a '
              'mismatch withdraws the exhaustive claim. Writes above 10000 bytes are not explored.'},
